@@ -22,10 +22,12 @@ const (
 	hStream
 	hDeadPeer
 	hDeadPeerReset // the peer's death is reported by a read error other than EOF (a reset, a timeout)
+	hWriteFailed   // a request could not be written and the link died with it
+	hWriteFailedUp // a request could not be written (a transient error): the link is still up
 	nHist
 )
 
-var histNames = []string{"idle", "used", "call-in-flight", "open-stream", "dead-peer", "dead-peer-read-error"}
+var histNames = []string{"idle", "used", "call-in-flight", "open-stream", "dead-peer", "dead-peer-read-error", "request-write-failed", "request-write-failed-link-up"}
 
 func census(x *X, n *FakeNet, what string) {
 	for _, t := range blockedThreads(nil) {
@@ -74,6 +76,16 @@ func c20ConnServer(x *X) {
 		c := newUcall(1, 0, 20, formCall)
 		c.issue(f.conn)
 		f.clientEnd(0).Reset()
+	case hWriteFailed, hWriteFailedUp:
+		c := newUcall(1, 0, 20, formCall)
+		c.issue(f.conn)
+		f.clientEnd(0).FailNext, f.clientEnd(0).FailKeepsLink = 1, h == hWriteFailedUp
+		wf := newUcall(2, 0, 20, formCall)
+		wf.spawn(f.conn)
+		vs.Quiesce()
+		if !wf.ret || wf.err == nil {
+			x.Fail("C20/failed-write-unnoticed", "a call whose request could not be written: returned=%v err=%v", wf.ret, wf.err)
+		}
 	}
 	vs.Quiesce()
 	var c1, c2, s1, s2 error
